@@ -76,7 +76,7 @@ vars == <<pipeline, prev, size, pc, status, unsorted, out, bai, w, planned, coll
 Jobs == 1 .. NJobs
 AllSizes == [Jobs -> 0 .. NMol]
 GenSizesQ == {<<1, 2, 1>>}                           \* scenario generation (NJobs = 3): `*` job, two contig jobs
-GenSizesT == {<<1, 2, 1>>, <<0, 1, 2>>, <<2, 0, 1>>}
+GenSizesT == {<<1, 2, 1>>, <<0, 1, 2>>, <<2, 0, 1>>, <<0, 0, 0>>}     \* incl. an input without any record
 Sum(f) == FoldSet(LAMBDA j, acc : acc + f[j], 0, DOMAIN f)
 Total == Sum(size)
 
